@@ -21,6 +21,13 @@ def handle (op : String) (a : Json) : Except String Json := do
   | "matcher_cover" =>
     -- the contract of the matcher the theorems assume (C08_matcher_contract_checked)
     return boolJ (matcherCoverB (← fldNat a "n") (← fldNat a "m") (← getMatcher (← fld a "matcher")))
+  | "holds_cover" =>
+    -- executable statement of the cover property on the matches the code returned (C08_holds_cover_sound)
+    let ms ← (← fldArr a "matches").mapM (fun j => do
+      match ← getArr j with
+      | [s, t] => return (← getOptNat s, ← getOptNat t)
+      | _ => .error "match: expected [src, tgt]")
+    return boolJ (holdsCoverB (← fldNat a "n_pred") (← fldNat a "n_ann") ms)
   | "pair_clips" =>
     let ps ← getNatList (← fld a "predictions")
     let as ← getNatList (← fld a "annotations")
